@@ -130,7 +130,69 @@ def run(ctx):
             if out != want:
                 res.mismatch(op[:300], want[:300], out[:300])
         res.extra['model_evaluations'] = len(ops)
+    nothing_in_clear_after_init(ctx, res)
     return res
+
+
+def nothing_in_clear_after_init(ctx, res):
+    """every message after IKE_SA_INIT carries all its payloads inside the encrypted payload: checked on every datagram the daemons
+    emit in ordinary sessions and when requests of other exchange types reach an IKE_SA that has no keys yet (an initiator still
+    waiting for the IKE_SA_INIT response, a responder that has only just been created)"""
+    import campaign as CP
+    import message as M
+    rng = ctx.rng
+
+    def check(w, what, rep):
+        for d in w.sent:
+            data = d.data
+            if len(data) < 28 or data[18] == 34:
+                continue
+            nxt = data[16]
+            if nxt not in (0, 46):
+                res.fail('payload-outside-sk', '%s: a datagram of exchange type %d (%d octets) carries payload type %d outside the encrypted payload'
+                         % (what, data[18], len(data), nxt), dict(rep, datagram=bytes(data).hex()[:400]))
+                return
+    for k in range(ctx.scale(6, 60)):
+        seed = rng.randrange(1 << 30)
+        with CP.History(seed, trace=False) as h:
+            w = h.w
+            rep = {'seed': seed, 'scenario': 'ordinary session'}
+            h.establish(rng.choice('AB'))
+            for _ in range(30):
+                h.random_op()
+            h.settle()
+            res.evaluations += len(w.sent)
+            res.count('clear-check:ordinary-datagrams', len(w.sent))
+            check(w, 'ordinary session', rep)
+    for exch in (35, 36, 37):
+        for target in ('initiator-waiting', 'fresh-responder'):
+            seed = rng.randrange(1 << 30)
+            with CP.History(seed, trace=False) as h:
+                w = h.w
+                rep = {'seed': seed, 'scenario': 'request of exchange type %d to an IKE_SA without keys (%s)' % (exch, target)}
+                res.evaluations += 1
+                res.nontrivial.add(('no-keys', exch, target))
+                res.count('clear-check:no-keys')
+                h.op('acquire', 'A', 8765)
+                a = w.A.sas()[0]
+                w.net.clear()
+                if target == 'initiator-waiting':
+                    m = M.Message(spi_i=a.my_spi, spi_r=b'\0' * 8, major=2, minor=0, exchange_type=exch, is_response=False,
+                                  can_use_higher_version=False, is_initiator=False, message_id=0, payloads=[M.PayloadNONCE()],
+                                  encrypted_payloads=[], crypto=None)
+                    h.op('inject', 'A', bytes(m.to_bytes()), w.ip_b)
+                else:
+                    # an IKE_SA_INIT request creates the responder; the very next datagram for it is of another exchange type
+                    first = w.sent[0].data
+                    h.op('inject', 'B', bytes(first), w.ip_a)
+                    b = w.B.sas()[0] if w.B.sas() else None
+                    if b is None:
+                        continue
+                    m = M.Message(spi_i=b.peer_spi, spi_r=b.my_spi, major=2, minor=0, exchange_type=exch, is_response=False,
+                                  can_use_higher_version=False, is_initiator=True, message_id=1, payloads=[M.PayloadNONCE()],
+                                  encrypted_payloads=[], crypto=None)
+                    h.op('inject', 'B', bytes(m.to_bytes()), w.ip_a)
+                check(w, rep['scenario'], rep)
 
 
 def _other_toy():
